@@ -84,6 +84,11 @@ def build_fs(world):
     fs.faults = [dict(f) for f in world.get('faults') or []]
     if world.get('install'):
         fs.path_map = [(core.pgradd_dir(), world['install'])]
+    # the simulated disk: every directory holding a copy, the location the
+    # package is (really or as simulated) installed at, and /sim
+    fs.namespace = fs.namespace + [r for r in world['roots']
+                                   if not r.startswith('/sim/')] + \
+        [core.pgradd_dir()]
     return fs
 
 
@@ -114,10 +119,7 @@ def segment(state, chain):
             fs.log = []
             k = op['op']
             if k == 'setenv':
-                if op['value'] is None:
-                    fs.env.pop(ENVVAR, None)
-                else:
-                    fs.env[ENVVAR] = op['value']
+                fs.setenv(ENVVAR, op['value'])
                 outs.append({'ok': True})
                 continue
             if k == 'chdir':
